@@ -7,6 +7,7 @@ package router
 import (
 	"crypto/tls"
 	"fmt"
+	"strings"
 	"testing"
 	"time"
 
@@ -101,11 +102,17 @@ func TestVerifC03Sizes(t *testing.T) {
 		// the largest DNS message there is, 65535 octets - a legal query
 		for _, seam := range c03Seams {
 			switch seam.name {
-			case "http-post", "http-post-chunked", "http-post-in-pieces", "fasthttp-post", "fasthttp-post-chunked", "quic":
+			case "http-post", "http-post-chunked", "http-post-in-pieces", "fasthttp-post", "fasthttp-post-chunked", "quic", "http-get", "fasthttp-get":
 			default:
 				continue
 			}
-			for i, size := range []int{28, 512, 4096, 16384, 65000, 65534, 65535} {
+			sizes := []int{28, 512, 4096, 16384, 65000, 65534, 65535}
+			if strings.HasSuffix(seam.name, "-get") {
+				// (a GET carries the query in its request line: what a server accepts there is a few KiB - net/http 8 KiB of request
+				// head - so the sweep stays inside that; the handlers are called directly, their own limits are what is judged)
+				sizes = []int{28, 512, 1500, 3072, 3073, 4000, 5000}
+			}
+			for i, size := range sizes {
 				if nsh > 1 && i%nsh != sh {
 					continue
 				}
